@@ -404,6 +404,18 @@ where
         let data_len = storage.value_size(storage_index)?;
         let capacity = data_len / T::storage_len();
 
+        // The length comes from the (untrusted) storage data. It must fit the stored value.
+        if len
+            .checked_mul(T::storage_len())
+            .and_then(|size| size.checked_add(u64::serialized_size_static()))
+            .is_none_or(|size| size > data_len)
+        {
+            return Err(DbError::collections(
+                DbErrorType::OutOfBounds,
+                format!("Vector length ({len}) exceeds the size of its data ({data_len})"),
+            ));
+        }
+
         Ok(DbVec {
             phantom_data: PhantomData,
             data: DbVecData {
